@@ -21,7 +21,7 @@ PARTIAL = ["sample values are small integers mapped into each dtype (the buffer 
 
 
 def gen_cases(rng, tier):
-    n = 700 if tier == "quick" else 15000
+    n = 700 if tier == "quick" else 6000
     cases = W.scripted(rng) + (W.scripted(rng) if tier != "quick" else [])
     for _ in range(n):
         cases.append({"seed": rng.randrange(1 << 40), "n": rng.choice([3, 6, 10, 16, 30])})
